@@ -7,8 +7,8 @@ from vk.specs import treeuniv as TU
 from vk.specs import universe as U
 from vk.specs import chain as S
 
-LEVEL = "exploration"
-TECHNIQUE = ("runtime contracts on the real TTNS/TTNO methods against an independent recursive tree contraction and dense linear algebra over enumerated "
+LEVEL = "other"
+TECHNIQUE = ("contracts decided exactly by symbolic execution of the real TTNS/TTNO code (all tensor values, every tree shape of the universe) + runtime contracts on the real TTNS/TTNO methods against an independent recursive tree contraction and dense linear algebra over enumerated "
              "rooted ordered tree shapes (every child order is its own case), node groupings and dummy placements (bounded stand-in)")
 TOL = 1e-10
 
@@ -214,6 +214,8 @@ def w_find_path(case, led):
 
 
 def check(run):
+    from props import C11_sym
+    C11_sym.prove(run)
     seeds = list(range(run.seed * 100, run.seed * 100 + (3 if run.tier == "quick" else 12)))
     cases = [(nn, fl, s, run.tier) for s in seeds for nn in ((2, 3, 4, 5) if run.tier == "quick" else (2, 3, 4, 5, 6)) for fl in ("spinqn", "holstein", "spin")]
     run_cases(run, worker, cases)
@@ -222,5 +224,5 @@ def check(run):
                 "flavours {spin+qn, electron-phonon, spin} x 2 sectors x real/complex states: constructor, todense(order), add/scale/copy/to_complex, TTNO.apply, canonicalise, "
                 "lossless compress, norm, expectation (TTNO and Op), 1-site/1-dof/2-dof RDMs, entropies, chain->tree conversion; find_path exhaustive on all shapes <= 5 nodes")
     run.sample({"shape": "((), ((),))", "payload": [["e0"], [], ["v1", "e2"], ["v3"]], "contract": "dense(H.apply(a)) == dense(H) @ dense(a) with the independent recursive contraction"})
-    run.explanation = "bounded only; the independent oracle is a recursive tensordot contraction that does not use opt_einsum index naming"
+    run.explanation = "Engine S decides todense/add/scale/apply/expectation/1-dof RDM identities exactly for every rooted ordered tree shape up to the bound; the rest is bounded; the independent oracle is a recursive tensordot contraction that does not use opt_einsum index naming"
     run.trusted += ["independent tree contraction (vk/specs/tree.py)", "print_tree shim"]
